@@ -26,8 +26,15 @@ Pow(b, e) == IF e = 0 THEN 1 ELSE b * Pow(b, e - 1)
 
 Rev(s) == [i \in 1..Len(s) |-> s[Len(s) + 1 - i]]
 
-RECURSIVE Flat(_)
-Flat(ss) == IF ss = <<>> THEN <<>> ELSE Head(ss) \o Flat(Tail(ss))
+\* concatenation of a sequence of sequences, balanced so that long sequences do not overflow the Java stack
+RECURSIVE FlatR(_, _, _)
+FlatR(ss, lo, hi) == IF lo > hi THEN <<>> ELSE IF lo = hi THEN ss[lo]
+                     ELSE LET mid == (lo + hi) \div 2 IN FlatR(ss, lo, mid) \o FlatR(ss, mid + 1, hi)
+Flat(ss) == FlatR(ss, 1, Len(ss))
+\* sum of f[lo..hi], balanced
+RECURSIVE SumR(_, _, _)
+SumR(f, lo, hi) == IF lo > hi THEN 0 ELSE IF lo = hi THEN f[lo]
+                   ELSE LET mid == (lo + hi) \div 2 IN SumR(f, lo, mid) + SumR(f, mid + 1, hi)
 
 Rep(b, n) == [i \in 1..n |-> b]
 
